@@ -201,6 +201,9 @@ def handle3 (l : Line) : Option String := do
     some (verdict (base ++ [("faces=4F", out.length == 4 * inp.length), ("verts=V+E", vout.length == vin.length + numE inp)] ++ geom))
   | "subdivider3" =>
     let k ← (← l.params.head?).toNat?
+    if l.params.contains "noninj" then
+      -- the harness saw the caller-supplied midpoint function return a point twice / an old vertex
+      return verdict [("claimed-noninjective", decide (vout.length < vin.length + k))]
     some (verdict (base ++ [("faces=F+2L", out.length == inp.length + 2 * k), ("verts=V+L", vout.length == vin.length + k),
       ("old-vertices-kept", subset vin vout)]))
   | "blur3" =>
